@@ -10,10 +10,38 @@ use serde_json::{json, Value};
 
 pub struct C07;
 
-fn render(case: &GCase, bnf: &crate::spec::Bnf, ii: usize) -> gen::Rendered {
+#[derive(Clone, Debug, serde::Serialize, serde::Deserialize)]
+pub struct Case {
+    pub g: GCase,
+    /// 0 = default whitespace skipping, 1..4 = Layout rule templates
+    pub mode: u8,
+}
+
+fn kind_of(mode: u8) -> Option<crate::spec::LayoutKind> {
+    use crate::spec::LayoutKind::*;
+    match mode {
+        0 => None,
+        1 => Some(Ws),
+        2 => Some(WsLine),
+        3 => Some(WsLineBlock),
+        _ => Some(WsLineBlockPlus),
+    }
+}
+
+fn spec_of(case: &Case) -> crate::spec::GrammarSpec {
+    let mut s = case.g.spec.clone();
+    s.layout = kind_of(case.mode);
+    s
+}
+
+fn render(case0: &Case, bnf: &crate::spec::Bnf, ii: usize) -> gen::Rendered {
+    let case = &case0.g;
     let tape = &case.tapes[ii];
     let toks = gen::tokens_for(bnf, tape, 10);
     let mut c = Cursor::new(&tape.tape);
+    if case0.mode > 0 {
+        return gen::render_with_layout(&case.spec.terms, &toks, kind_of(case0.mode), ii % 3 == 2, &mut c);
+    }
     let style = match ii % 3 {
         0 => LayoutStyle::Unicode,
         1 => LayoutStyle::Ascii,
@@ -23,11 +51,11 @@ fn render(case: &GCase, bnf: &crate::spec::Bnf, ii: usize) -> gen::Rendered {
 }
 
 impl Prop for C07 {
-    type Case = GCase;
+    type Case = Case;
     fn id(&self) -> &'static str {
         "C07"
     }
-    fn strategy(&self, tier: Tier) -> BoxedStrategy<GCase> {
+    fn strategy(&self, tier: Tier) -> BoxedStrategy<Case> {
         let (nts, inputs) = match tier {
             Tier::Quick => (5, 14..22),
             Tier::Thorough => (8, 24..36),
@@ -38,7 +66,10 @@ impl Prop for C07 {
             inputs,
             24,
         );
-        prop_oneof![2 => plain, 1 => uni].boxed()
+        let g = prop_oneof![2 => plain, 1 => uni];
+        (g, prop_oneof![4 => Just(0u8), 1 => Just(1u8), 1 => Just(2u8), 1 => Just(3u8), 1 => Just(4u8)])
+            .prop_map(|(g, mode)| Case { g, mode })
+            .boxed()
     }
     fn cases(&self, tier: Tier) -> u32 {
         match tier {
@@ -59,17 +90,19 @@ impl Prop for C07 {
             .into()
     }
     fn assumptions(&self) -> Vec<String> {
-        vec!["default whitespace skipping (no Layout rule: GLR trees carry no layout by design); inputs <= 10 tokens".into()]
+        vec!["default whitespace skipping and four Layout-rule templates; stored layouts are not compared (GLR trees carry no layout by design), spans are; inputs <= 10 tokens".into()]
     }
-    fn describe(&self, case: &GCase) -> Value {
-        let bnf = case.spec.bnf();
-        let inputs: Vec<String> = (0..case.tapes.len()).map(|i| render(case, &bnf, i).text).collect();
-        json!({"grammar": case.spec.render(), "inputs": inputs})
+    fn describe(&self, case: &Case) -> Value {
+        let bnf = case.g.spec.bnf();
+        let inputs: Vec<String> = (0..case.g.tapes.len()).map(|i| render(case, &bnf, i).text).collect();
+        json!({"grammar": spec_of(case).render(), "mode": case.mode, "inputs": inputs})
     }
-    fn check(&self, case: &GCase, st: &mut Stats) -> Outcome {
-        let spec = &case.spec;
-        let bnf = spec.bnf();
+    fn check(&self, case: &Case, st: &mut Stats) -> Outcome {
+        let spec_l = spec_of(case);
+        let spec = &spec_l;
+        let bnf = case.g.spec.bnf();
         let text = spec.render();
+        st.class(&format!("layout-mode-{}", case.mode));
         let raw = match compile_or_discard(&text, &Cfg::raw(TT::Pager), st) {
             Ok(d) => d,
             Err(Some(_)) => {
@@ -98,7 +131,7 @@ impl Prop for C07 {
         if has_conflicts(&glr) {
             st.class("rn-table-has-multi-action-cells");
         }
-        for ii in 0..case.tapes.len() {
+        for ii in 0..case.g.tapes.len() {
             let r = render(case, &bnf, ii);
             let inp = &r.text;
             st.sub();
@@ -131,8 +164,21 @@ impl Prop for C07 {
                     let sb = strip_real(&ob.trees[0]);
                     // production indexes are identical in both dumps (same grammar text)
                     if let Some((cls, msg)) = tree_diff(&lr, &sa, &sb) {
+                        // structural class: with a Layout rule the LR span of a node ending in an
+                        // empty child reaches behind the trailing layout while the GLR span of the
+                        // same node (first built by a right-nulled reduction) ends at the last token
+                        let mut extra = "";
+                        if cls == "nonterm-span" && case.mode > 0 {
+                            if let Some((x, y)) = first_span_diff(&sa, &sb) {
+                                let gap = inp.get(y.end.pos..x.end.pos).unwrap_or("x");
+                                let lay_ok = kind_of(case.mode).map(|k| crate::oracle::layoutmodel::is_layout(k, gap)).unwrap_or(false);
+                                if x.start == y.start && x.end.pos > y.end.pos && lay_ok {
+                                    extra = "|layout-rule|lr-end-behind-trailing-layout";
+                                }
+                            }
+                        }
                         return Outcome::fail(
-                            format!("tree|{cls}"),
+                            format!("tree|{cls}{extra}"),
                             format!(
                                 "{}\n{msg}\nLR : {}\nGLR: {}",
                                 ctx(),
